@@ -89,6 +89,12 @@ claims.update({
    'Not decided: loss/duplication freedom of the producer/flusher protocol over all interleavings.',
    'DESIGN.md 3.C11'),
 })
+claims.update({
+ 'C15': ('other', 'lock-guard of the ring state, writer/reader agreement of the virtual-node hash derivation, per-iteration pairing rules of the add/remove loops, sortedness and emptiness-guard rules of Get',
+   'keys/ring/nodes only under h.lock; AddWithReplicas removes the node first, clamps replicas to h.replicas (Remove\'s loop bound), registers the node, appends exactly one key entry and one ring entry per replica for hashFunc(repr(node)+Itoa(i)) unconditionally, sorts keys ascending before unlocking; Remove derives the same hashes, removes at most the one matching key per replica guarded only by the search hit, always filters the node out of ring[hash], forgets the node; Get answers (nil,false) exactly when the ring/key list (the modulus) is empty, else a member of ring[keys[search % len(keys)]]; AddWithWeight = replicas*weight/100.',
+   'Not decided: minimal disruption and history independence as quantitative statements (follow from these invariants plus hash-function properties); collision buckets keep insertion order.',
+   'DESIGN.md 3.C15'),
+})
 not_built_reason = 'static rules designed (DESIGN.md section 3) but not built yet in this revision'
 
 checks, na = [], []
